@@ -58,7 +58,7 @@ GOODSPEC = [{"class_path": "dsim.simtypes.Sub1", "init_args": {"n": 2}}, {"class
 
 F = {
     "a": {"decl": {"type": "int", "default": 0}, "good": [1, -3], "bad": ["x", 1.5, [1], "", None]},
-    "f": {"decl": {"type": "float", "default": 0.5}, "good": [1.5, 2], "bad": ["x", [1]]},
+    "f": {"decl": {"type": "float", "default": 0.5}, "good": [1.5, 2], "bad": ["x", [1], "9" * 400, "-" + "9" * 400], "num": True},
     "b": {"decl": {"type": "bool", "default": False}, "good": [True, False], "bad": ["maybe", 3]},
     "s": {"decl": {"type": "str", "default": "s0"}, "good": ["v1", "x y"], "bad": [3, [1]]},
     "o": {"decl": {"type": "optint", "default": None}, "good": [4, None], "bad": ["x"]},
@@ -100,6 +100,9 @@ F = {
     "ch1": {"decl": {"choices": ["x", "y"], "default": "x"}, "good": ["x", "y"], "bad": ["z", 3, ["x"]]},
     "pi": {"decl": {"type": "pos_int", "default": 1}, "good": [3, "4"], "bad": ["x", -1, [1]]},
     "n": {"decl": {"type": "float", "nargs": "+", "default": [1.0]}, "good": [[1, 2]], "bad": [["x"]], "nargs": True},
+    "pint": {"decl": {"type": "positive_int", "default": 1}, "good": [3, "4"], "bad": ["x", -1, 1.5, 0, [1], ".inf", "1e999"], "num": True},
+    "unit": {"decl": {"type": "unit_interval", "default": 0.5}, "good": [0.25, 1], "bad": ["x", 2, -0.5, [1], "9" * 400], "num": True},
+    "dis": {"decl": {"type": "dict_int_str", "default": {}}, "good": [{"1": "a"}], "bad": ["{.inf: a}", {"x": "a"}, 3, "{1.5: a}", "{-.inf: b}"], "num": True},
     "ate": {"decl": {"type": "ate_int", "default": 1}, "good": [3, "4"], "bad": ["x", -1, [1], None, 1.5]},
     "jn": {"decl": {"k": "jsonnet"}, "good": [{"layers": 1}, '{"a": 1}', "{a: 1 + 1}"], "bad": ["{bad", 3, "[1", "local x = ; x", "good.yaml", "missing.yaml", [1]], "path": False},
     "js": {"decl": {"k": "jsonschema", "schema": {"type": "object", "properties": {"k": {"type": "integer"}}, "additionalProperties": False}}, "good": [{"k": 1}, '{"k": 2}'], "bad": [{"k": "x"}, {"zz": 1}, "{bad", 3, [1], "good.yaml", "missing.yaml"]},
@@ -126,7 +129,7 @@ SUBVALS = [1, "x", [1], [{"p": 1}], {"p": 1}, {"k": {"p": 1}}, None, [1.5], {"a"
 PATH_STATES = ["good.yaml", "missing.yaml", "dir.yaml", "fifo.pipe", "fifogood.pipe", "dangling.yaml", "thru/x.yaml", "noperm.yaml", "$W/run/good.yaml", "~/h.yaml", "../run/good.yaml", "-", "nodir/x.yaml", "a\x00b.yaml", "", " ", ".", "good.yaml/", "--"]
 DEEP_RUN = "[" * 1000  # deeper than the interpreter's recursion limit allows
 MID_RUN = "[" * 300  # deep, but well within it: has to load
-CONTENT_FAULTS = ["deep-limit", "interp", "digits", "truncated", "flip", "nonutf8", "empty", "binary", "nul", "cyclic", "cyclic-any", "list-doc", "scalar-doc", "dupkeys", "tabs", "bom", "unknown-key", "bad-value", "deep", "nonstr-keys", "merge-key", "multi-doc"]
+CONTENT_FAULTS = ["inf", "deep-limit", "interp", "digits", "truncated", "flip", "nonutf8", "empty", "binary", "nul", "cyclic", "cyclic-any", "list-doc", "scalar-doc", "dupkeys", "tabs", "bom", "unknown-key", "bad-value", "deep", "nonstr-keys", "merge-key", "multi-doc"]
 METHODS = ["args", "args", "args", "object", "string", "env", "path"]
 
 
@@ -186,6 +189,12 @@ def make_content(rng, kind, feats):
             f = rng.choice(fs)
             doc[f] = copy.deepcopy(rng.choice(F[f]["bad"]))
         return {"text": json.dumps(doc)}
+    if kind == "inf":
+        # numbers YAML loads that do not fit the declared type: infinities, nan, integers beyond a float's range
+        fs = [f for f in feats if F.get(f, {}).get("num") or f in ("a", "o", "l", "d", "n", "pi", "td")] or ["a"]
+        f = rng.choice(fs)
+        v = rng.choice([".inf", "-.inf", ".nan", "1e999", "9" * 400, "{.inf: a}", "[.inf]", "{k: .inf}", "[" + "9" * 400 + "]"])
+        return {"text": "%s: %s\n" % (f, v)}
     if kind == "deep-limit":
         k = [f for f in feats if F.get(f, {}).get("anyval")] or ["any"]
         c = rng.random()
@@ -275,6 +284,12 @@ def gen_argv(rng, feats, all_feats, spec_feats):
                 argv += [name, v]
             else:
                 argv.append(name)
+    if "cfg" in spec_feats and rng.random() < 0.06:
+        # printing only what differs from the defaults, after a class was chosen for a class-typed argument
+        cls = [f for f in feats if F[f].get("cls") and isinstance(F[f]["good"][0], (str, dict))]
+        if cls:
+            f = rng.choice(cls)
+            argv = ["--%s=%s" % (f, _t(rng.choice(F[f]["good"]))), rng.choice(["--print_config=skip_default", "--print_config=skip_default,skip_null"])]
     if "base" in feats and rng.random() < 0.15:
         argv += rng.choice([["--base=Sub1", '--base.opts={"a": 1}', "--base=Sub3"], ["--base=Sub3", "--base.opts=2", "--base=Sub1"], ["--base=Sub1", "--base.child=Sub3", "--base.child.opts=x"], ["--base=Sub1", "--base.n=1", "--base=dsim.simtypes.Sub2", "--base.path=" + rng.choice(PATH_STATES)]])
     if "sub" in spec_feats and rng.random() < 0.7:
